@@ -701,4 +701,202 @@ theorem sound_c03LaterFirst (tr : Trace) (l : Label) (o : Obs) (i j : Nat)
   obtain ⟨_, hP2⟩ := hP tr.length (len_lt_snoc _ _) j (by rw [obsAt_snoc_len]; exact h1) hnj
   exact hP2 i hij ((startedBefore_of_hist hm hqi).mp hsi)
 
+/-! ## non-vacuity: every predicate holds on a small good trace whose hypotheses are exercised, and
+fails (the monitor fires) on a tiny bad one -/
+
+namespace SoundExamples
+
+/-! ### C05 -/
+
+/-- graceful close with a request in flight whose A2 ran after shutdown began, a response write that
+really failed, then the transport closed once, idle. -/
+def good05 : Trace :=
+  [(.read (.call 7), {closing := true, inc := 1}),
+   (.a2 0, {closing := true, inc := 1}),
+   (.wret (.resp 0) .broken, {closing := true, writeErr := true, x := [(0, .write)]}),
+   (.cl1, {closing := true, writeErr := true, x := [(0, .write)], tc := 1, od := 1, done := true})]
+
+example : P_c05TcTwice good05 := by
+  intro k; rcases k with _|_|_|_|k <;> simp [obsAt, good05]
+example : P_c05OdTwice good05 := by
+  intro k; rcases k with _|_|_|_|k <;> simp [obsAt, good05]
+example : P_c05ClosedBusy good05 := by
+  intro k hk; rcases k with _|_|_|_|k <;> simp [obsAt, before, good05, Obs.idle] at hk ⊢
+example : P_c05DoneBusy good05 := by
+  intro k hk; rcases k with _|_|_|_|k <;> simp [obsAt, good05, Obs.idle] at hk ⊢
+example : P_c05LateDispatch good05 := by
+  intro i r h hb j hij hj
+  rcases j with _|_|_|_|j <;> simp [obsAt, good05] at hj ⊢
+example : P_c05WriteCause good05 := by
+  intro k hk r h1 h2
+  refine ⟨2, ?_, some 0, by simp [evAt, good05, evOf, Who.resp?]⟩
+  rcases k with _|_|_|_|k <;> simp [obsAt, before, good05] at hk h1 h2 ⊢
+
+/-! ### C01 -/
+
+def good01 : Trace :=
+  [(.ecall, {oc := [1], parked := [.c1 1]}),
+   (.read (.resp 1 5), {fins := [.call 1 (.ok 5)], done := true}),
+   (.ecall, {done := true, fins := [.call 1 (.ok 5)], parked := [.c1 2]}),
+   (.c1 2, {done := true, fins := [.call 1 (.ok 5), .call 2 .closed]})]
+
+example : P_c01Final good01 := by
+  intro i j n r hij hj hm
+  rcases j with _|_|_|_|j <;> rcases i with _|_|_|_|i <;>
+    simp [obsAt, good01] at hij hj hm ⊢ <;>
+    first
+      | omega
+      | (obtain ⟨rfl, rfl⟩ := hm; simp [finCall]; done)
+      | (rcases hm with ⟨hn, hr⟩ | ⟨hn, hr⟩ <;> subst hn <;> subst hr <;> simp [finCall])
+example : P_c01Own good01 := by
+  intro j hj n pl hm
+  refine ⟨1, ?_, ?_⟩ <;>
+  rcases j with _|_|_|_|j <;> simp [obsAt, good01, evAt, evOf] at hj hm ⊢ <;> simp [hm]
+example : P_c01Unparsable good01 := by
+  intro j n r hm
+  rcases j with _|_|_|_|j <;> simp [obsAt, good01] at hm ⊢ <;>
+    first
+      | (obtain ⟨rfl, rfl⟩ := hm; simp; done)
+      | (rcases hm with ⟨hn, hr⟩ | ⟨hn, hr⟩ <;> subst hn <;> subst hr <;> simp)
+example : P_c01Panic good01 := by
+  intro j n
+  rcases j with _|_|_|_|j <;> simp [obsAt, good01]
+example : P_c01Blocked good01 := by
+  intro j hj hd n h1 hn
+  rcases j with _|_|_|_|j <;> simp [obsAt, good01, callNoAt, cnt, evOf] at hj hd hn ⊢ <;>
+    (have : n = 1 ∨ n = 2 := by omega) <;> rcases this with rfl | rfl <;> simp [finCall, Obs.callParked, PTok.callNo] at hn ⊢
+example : P_c01Late good01 := by
+  intro i hi he hd j hij hj r hr
+  rcases i with _|_|_|_|i <;> simp [good01, evAt, evOf, before, obsAt] at hi he hd
+  rcases j with _|_|_|_|j <;> simp [good01, obsAt, callNoAt, cnt, evOf, finCall] at hij hj hr ⊢
+  exact .inl hr.symm
+
+/-! ### C02, C04, C03 -/
+
+def good24 : Trace :=
+  [(.read (.call 7), {}),
+   (.a1 0, {parked := [.h 0]}),
+   (.k1 7, {parked := [.h 0], x := [(0, .other)]}),
+   (.w1 (.resp 0), {x := [(0, .other)]}),
+   (.p2 0, {x := [(0, .other)]}),
+   (.read .notif, {x := [(0, .other)], parked := [.h 1]})]
+
+theorem good24_readAt {r t : Nat} {e : Ev} (h : ReadAt good24 r t e) :
+    (r = 0 ∧ t = 0 ∧ e = .readCall 7) ∨ (r = 1 ∧ t = 5 ∧ e = .readNotif) := by
+  obtain ⟨he, hr, hn⟩ := h
+  have := evAt_some_lt he
+  rcases t with _|_|_|_|_|_|t <;>
+    simp [good24, evAt, evOf, nreadsBefore, reads, Ev.isRead, List.filter_cons] at he hn this <;> subst he <;> first | (subst hn; simp; done) | simp_all [Ev.isRead]
+
+example : P_c02Twice good24 := by
+  intro r; simp [cnt, good24, evOf, Who.resp?]
+example : P_c02NotifAnswered good24 := by
+  intro r t e hr he t' hlt hw
+  have := evAt_some_lt hw
+  rcases good24_readAt hr with ⟨rfl, rfl, rfl⟩ | ⟨rfl, rfl, rfl⟩
+  · simp at he
+  · simp [good24] at this; omega
+example : P_c02Answered good24 := by
+  intro r t id hr
+  rcases good24_readAt hr with ⟨rfl, rfl, h⟩ | ⟨rfl, rfl, h⟩
+  · exact ⟨3, by omega, by simp [good24, evAt, evOf]⟩
+  · cases h
+
+theorem good24_idx : indexedAt good24 2 7 = some 0 := by
+  simp [indexedAt, idxAt, good24, evAt, evOf, reqIdAt, reads, Ev.isRead, Ev.reqId, List.filter_cons]
+theorem good24_arr0 (t : Nat) (h : 0 < t) : arrived good24 0 t := by
+  refine arrived_mono (show 1 ≤ t from h) ?_
+  simp [arrived, nreadsBefore, good24, reads, evOf, Ev.isRead, List.filter_cons]
+
+example : P_c04Unrelated good24 := by
+  intro k hk r h1 h2 ha
+  refine .inl ⟨2, ?_, 7, by simp [good24, evAt, evOf], ?_⟩
+  · rcases k with _|_|_|_|_|_|k <;> simp [good24, obsAt, before] at hk h1 h2 ⊢
+  · have : r = 0 := by
+      rcases k with _|_|_|_|_|_|k <;> simp [good24, obsAt, before] at hk h1 h2 ⊢ <;> assumption
+    subst this; exact good24_idx
+
+example : P_c04NotCancelled good24 := by
+  intro k hk id he r hidx hread hnp2 hrun
+  obtain ⟨t, ht, id', he', hi⟩ := hidx
+  have hk2 : k = 2 := by
+    rcases k with _|_|_|_|_|_|k <;> simp [good24, evAt, evOf] at hk he ⊢
+  subst hk2
+  have ht2 : t = 2 := by
+    rcases t with _|_|_|t <;> simp [good24, evAt, evOf] at ht he' ⊢
+  subst ht2
+  have hid : id' = 7 := by simpa [good24, evAt, evOf] using he'.symm
+  subst hid
+  rw [good24_idx] at hi
+  cases hi
+  exact ⟨(0, .other), by simp [good24, obsAt], rfl⟩
+
+example : P_c03Order good24 := by
+  intro k hk j hj hns
+  rcases k with _|_|_|_|_|_|k <;> simp [good24, obsAt] at hk hj
+  · subst hj
+    refine ⟨fun i hi => absurd hi (Nat.not_lt_zero _), ?_⟩
+    rintro i hi ⟨p, hp, _, hm⟩
+    rcases p with _|p <;> simp [good24, obsAt] at hp hm
+  · subst hj
+    exact absurd ⟨1, by omega, good24_arr0 _ (by omega), by simp [good24, obsAt]⟩ hns
+  · subst hj
+    refine ⟨?_, ?_⟩
+    · intro i hi _
+      have : i = 0 := by omega
+      subst this
+      exact ⟨4, by omega, good24_arr0 _ (by omega), .inr (by simp [good24, evAt, evOf])⟩
+    · rintro i hi ⟨p, hp, _, hm⟩
+      rcases p with _|_|_|_|_|p <;> simp [good24, obsAt] at hp hm <;> omega
+
+/-! ### the monitor fires (and, by soundness, the clause fails) on tiny bad traces -/
+
+example : ¬ P_c05TcTwice ([] ++ [(.eclose, {tc := 2})]) := sound_c05TcTwice _ _ _ (by decide)
+example : ¬ P_c05OdTwice ([] ++ [(.eclose, {od := 2})]) := sound_c05OdTwice _ _ _ (by decide)
+example : ¬ P_c05ClosedBusy ([] ++ [(.eclose, {tc := 1, hr := true})]) := sound_c05ClosedBusy _ _ _ (by decide)
+example : ¬ P_c05DoneBusy ([] ++ [(.eclose, {done := true, inc := 1})]) := sound_c05DoneBusy _ _ _ (by decide)
+example : ¬ P_c05LateDispatch ([(.read (.call 7), {closing := true})] ++ [(.a2 0, {closing := true, parked := [.h 0]})]) :=
+  sound_c05LateDispatch _ _ _ 0 (by decide)
+example : ¬ P_c05WriteCause ([(.read (.call 7), ({} : Obs))] ++ [(.d1, {x := [(0, .write)]})]) :=
+  sound_c05WriteCause _ _ _ 0 (by decide)
+
+example : ¬ P_c01Final ([(.ecall, ({} : Obs)), (.read (.resp 1 5), {fins := [.call 1 (.ok 5)]})] ++ [(.rresp, {fins := [.call 1 .closed]})]) :=
+  sound_c01Twice _ _ _ 1 (.ok 5) .closed (by decide)
+example : ¬ P_c01Final ([(.ecall, ({} : Obs)), (.read (.resp 1 5), {fins := [.call 1 (.ok 5)]})] ++ [(.rresp, ({} : Obs))]) :=
+  sound_c01Lost _ _ _ 1 (by decide)
+example : ¬ P_c01Own ([(.ecall, ({} : Obs))] ++ [(.read (.resp 1 5), {fins := [.call 1 (.ok 6)]})]) :=
+  sound_c01Foreign _ _ _ 1 6 (by decide)
+example : ¬ P_c01Unparsable ([(.ecall, ({} : Obs))] ++ [(.c1 1, {fins := [.call 1 .okPlain]})]) :=
+  sound_c01Unparsable _ _ _ 1 .okPlain (by decide)
+example : ¬ P_c01Panic ([(.ecall, ({} : Obs))] ++ [(.c1 1, {fins := [.call 1 .panic]})]) :=
+  sound_c01Panic _ _ _ 1 (by decide)
+example : ¬ P_c01Blocked ([(.ecall, ({} : Obs))] ++ [(.read .eof, {done := true})]) :=
+  sound_c01Blocked _ _ _ 1 (by decide)
+example : ¬ P_c01Late ([(.read .eof, {done := true}), (.ecall, {done := true, parked := [.c1 1]})] ++
+    [(.c1 1, {done := true, fins := [.call 1 .read]})]) :=
+  sound_c01Late _ _ _ 1 .read (by decide)
+
+example : ¬ P_c02Twice ([(.read (.call 7), ({} : Obs)), (.wret (.resp 0) .ok, ({} : Obs))] ++ [(.wret (.resp 0) .ok, ({} : Obs))]) :=
+  sound_c02Twice _ _ _ 0 (by decide)
+example : ¬ P_c02NotifAnswered ([(.read .notif, ({} : Obs))] ++ [(.w1 (.resp 0), ({} : Obs))]) :=
+  sound_c02NotifAnswered _ _ _ 0 (by decide)
+example : ¬ P_c02Answered [(.read (.call 7), ({} : Obs))] := sound_c02NoAttempt _ 0 (by decide)
+example : ¬ P_c02Answered [(.read (.call 7), ({} : Obs)), (.a1 0, ({} : Obs)), (.read (.call 7), ({} : Obs)), (.a1 1, ({} : Obs)), (.w1 (.resp 0), ({} : Obs))] :=
+  sound_c02Dropped _ 1 (by decide)
+
+example : ¬ P_c03Order ([(.read .notif, ({} : Obs)), (.read .notif, {parked := [.h 0]})] ++ [(.d1, {parked := [.h 0, .h 1]})]) :=
+  sound_c03BeforeSync _ _ _ 1 0 (by decide)
+example : ¬ P_c03Order ([(.read .notif, ({} : Obs)), (.read .notif, {parked := [.h 1]})] ++ [(.d1, {parked := [.h 0, .h 1]})]) :=
+  sound_c03LaterFirst _ _ _ 1 0 (by decide)
+
+example : ¬ P_c04CtxStuck ([(.ecall, ({} : Obs))] ++ [(.ectx 1, ({} : Obs))]) := sound_c04CtxStuck _ _ _ 1 (by decide)
+example : ¬ P_c04ReadCause ([(.read (.call 7), ({} : Obs))] ++ [(.d1, {x := [(0, .read)]})]) :=
+  sound_c04ReadCause _ _ _ 0 (by decide)
+example : ¬ P_c04Unrelated ([(.read (.call 7), ({} : Obs))] ++ [(.d1, {x := [(0, .other)]})]) :=
+  sound_c04Unrelated _ _ _ 0 (by decide)
+example : ¬ P_c04NotCancelled ([(.read (.call 7), ({} : Obs)), (.a1 0, {parked := [.a2 0]})] ++ [(.k1 7, {parked := [.a2 0]})]) :=
+  sound_c04NotCancelled _ _ _ 7 0 (by decide)
+
+end SoundExamples
+
 end Conn
